@@ -1,5 +1,6 @@
 import Driver.QueueAcc
 import Driver.AdderAcc
+import Driver.BreakerAcc
 /-!
 Generic run loop for trace acceptors.  Input: runs separated by `reset …` lines and closed by `end`.
 Output per run: `ACCEPT <run> steps=<n> <summary>` or `REJECT <run> line=<n> :: <line> :: <reason>`;
@@ -37,6 +38,10 @@ partial def acceptLoop {σ : Type} (A : Acceptor σ) (h : IO.FS.Stream) (out : I
       else
         let (cov', steps') :=
           match toks with
+          | "tick" :: t :: _ =>
+            let name := A.pc st (t.toNat?.getD 0)
+            let c := (cov.lookup name).getD 0
+            ((name, c + 1) :: cov.filter (·.1 != name), steps + 1)
           | "ev" :: t :: _ =>
             let name := A.pc st (t.toNat?.getD 0)
             let c := (cov.lookup name).getD 0
@@ -62,5 +67,12 @@ def adderAcceptor : Acceptor AdderAcc.AccSt where
   pc := fun st t => AdderAcc.pcName (AdderAcc.getL st t)
   summary := fun st => s!"steps={st.steps} applied={st.g.applied} base={st.g.base} ncell={st.g.ncell} narr={st.g.narr} tbl={st.g.tbl} lps={st.lps.length}"
   stuck := fun st => st.ls.filterMap (fun (t, l) => match l with | .idle => none | l => some s!"{t}:{AdderAcc.pcName l}")
+
+def breakerAcceptor : Acceptor BreakerAcc.AccSt where
+  init := BreakerAcc.initSt
+  line := BreakerAcc.processLine
+  pc := fun st t => BreakerAcc.pcName (BreakerAcc.getL st t)
+  summary := fun st => s!"steps={st.steps} objs={st.g.objs.length} cur={st.g.cur} wins={st.g.wins.length} buckets={st.g.buckets.length} ghost={st.ghost.reverse}"
+  stuck := fun st => st.ls.filterMap (fun (t, l) => match l with | .idle => none | l => some s!"{t}:{BreakerAcc.pcName l}")
 
 end Driver
